@@ -57,7 +57,7 @@ CLAIMED = {
                  'DESIGN.md §5 C04',
                  'PARTIAL: emission-time eligibility for restricted distributions is checked on generated runs, not proved; '
                  'known findings c04-single-instance-on-demand-load, c04-cross-application-pending-load, '
-                 'c03-noresource-reentrancy (node cap exceeded / duplicate request).'),
+                 'c04-non-distributed-no-recheck, c03-noresource-reentrancy (node cap exceeded / duplicate request).'),
     'C05': claim('Coq proofs: conflict detection iff a managed process runs on >= 2 instances; for each of the six '
                  'strategies the exact stop/restart request set (never outside a conflict), SENICIDE/INFANTICIDE keeper by '
                  'uptime with Python tie-breaking; conflicts cleared after the acknowledgements (via the C11 model); '
@@ -67,7 +67,9 @@ CLAIMED = {
     'C06': claim('Coq proofs for every sequence of failure notifications / triggers / aborts: exclusion invariant of the '
                  'four job sets, precedence STOP_APPLICATION > RESTART_APPLICATION > RESTART_PROCESS > CONTINUE with '
                  'promotion, single action per application, deferral while jobs are in progress, planned commands left '
-                 'alone, Master-only; model = real RunningFailureHandler / on_instances_invalidation / FSM feed points.',
+                 'alone, Master-only; in-place filtering contract of the lost processes between the FSM and the Starter '
+                 '(props/C06node.v); model = real RunningFailureHandler / on_instances_invalidation / FSM feed points / '
+                 'node control plane.',
                  'DESIGN.md §5 C06', 'Known findings F9 (processes lost with the Master), F10 (RESTART dropped in ELECTION).'),
     'C12': claim('Coq proofs over a replication model (receiver rules of Context + cluster with FIFO channels and '
                  'snapshot handshakes): under the boolean schedule predicate clean (no event lost in a handshake window) '
@@ -80,10 +82,15 @@ CLAIMED = {
                  'wf_event (and each excluded event does crash: necessity), process status never crashes on well-formed '
                  'histories (C11), receiver and cluster replication models never crash (C12), handler and conciliation '
                  'models total (C05/C06); exceptions are observables of every driver, so a new raise site breaks the '
-                 'correspondence with a concrete event sequence.', 'DESIGN.md §5 C16',
+                 'correspondence with a concrete event sequence; membership bookkeeping of ApplicationStatus (additions / '
+                 'removals of processes and groups) keeps the start / stop sequences exact in every reachable state, so '
+                 'that start requests and the periodic evaluation never raise (props/C16app.v); set_state terminates '
+                 '(props/C16term.v). The check also runs the Sequencer and Invalidation suites (no internal error of the '
+                 'real Starter / Stopper).', 'DESIGN.md §5 C16',
                  'Bounded by model coverage: web UI, supvisorsctl, statistics collector, external publishers not '
-                 'modelled. Known findings: set_state livelock under inconsistent synchro options + RESYNC; XML-RPC with '
-                 'a non-string namespec (C17).'),
+                 'modelled. Known findings: set_state livelock under inconsistent synchro options + RESYNC; re-entrant '
+                 'Commander.next KeyError; one namespec announced under two program names (c16-program-name-drift); '
+                 'XML-RPC with a non-string namespec (C17).'),
     'C07': claim('Coq proofs over the node model (every event history, by induction): per-event instance discipline '
                  '(documented instance graph, local instance never ISOLATED, ISOLATED absorbing), completeness and '
                  'accuracy of failure detection in local-tick counts (live_peer_never_lost, window_formulation), '
@@ -97,10 +104,13 @@ CLAIMED = {
                  'the Coq convergence spec (every live instance back in the state of its live self-acknowledged Master, '
                  'OPERATION/CONCILIATION) is evaluated on the last observed state after fault prefixes + quiet rounds; '
                  'theorems: see DESIGN (decision/table analysis, agreement core). Two genuine parking defects found by '
-                 'this check were fixed (CONCILIATION->ELECTION, slave stuck in ELECTION).', 'DESIGN.md §5 C08',
+                 'this check were fixed (CONCILIATION->ELECTION, slave stuck in ELECTION); the glue model has real proxy '
+                 'queues, failed sends over cut links (INSTANCE_FAILURE), slow handshakes, and compares the views held '
+                 'of every instance.', 'DESIGN.md §5 C08',
                  'PARTIAL: liveness under arbitrary asynchronous schedules is not proved (only safety lemmas + bounded '
                  'quiet-round convergence observed on the implementation and the model); provisos: TIMEOUT selected, '
-                 'clean isolation among live instances, process plane idle during quiet rounds.'),
+                 'clean isolation among live instances, process plane idle during quiet rounds. Known finding '
+                 'handshake-window-state-lost (stale view after a handshake parks the group in ELECTION).'),
     'C11': claim('Coq proof that the executable model of ProcessStatus refines the abstract per-instance specification '
                  'written from the property (running list, conflict flag, synthetic and displayed state, forced-state '
                  'rules, loss frame) for every well-formed history of any length over any number of instances; the '
@@ -116,7 +126,8 @@ CLAIMED = {
                  'DESIGN.md §5 C13',
                  'Modelled, not verified: Context.is_valid + listener dispatch + on_authorization; the computation of the '
                  'authorization code by SupervisorProxy._is_authorized is exercised by the cluster suite only. '
-                 'Reciprocity at cluster level is not proved.'),
+                 'Reciprocity at cluster level: props/C13cluster.v (handshake with a peer that isolated us => '
+                 'NOT_AUTHORIZED notice => ISOLATED), under link-up hypotheses.'),
     'C14': claim('Coq proofs (all layouts, loads, request maps, candidate lists): each of the six starting strategies '
                  'returns a valid candidate that is optimal for the documented lexicographic key with the exact tie '
                  'rule, None iff no valid candidate; SINGLE_INSTANCE / SINGLE_NODE distribution theorems; model = real '
